@@ -57,7 +57,7 @@ func H_C11_filter_uses_document_page_index() {
 	a := vAnyIntIn(2, 5)
 	b := vAnyIntIn(a, 5) // b == a: single page
 	mode := vAnyIntIn(0, 2)
-	e := &Extractor{filename: "x.pdf", format: format.PDF, reader: &reader.Reader{}, readerOpened: true, ownsReader: true, options: defaultOptions()}
+	e := &Extractor{format: format.PDF, reader: &reader.Reader{}, readerOpened: true, ownsReader: false, options: defaultOptions()} // the state tabula.FromReader(r) builds: derivations share the caller-supplied reader
 	if a == b {
 		e = e.Pages(a)
 	} else {
@@ -122,7 +122,7 @@ func H_C10_selection_spelling_is_irrelevant() {
 	opt := vAnyIntIn(0, 2)
 	term := vAnyIntIn(0, 2)
 	mk := func(spelling int) *Extractor {
-		e := &Extractor{filename: "x.pdf", format: format.PDF, reader: &reader.Reader{}, readerOpened: true, ownsReader: true, options: defaultOptions()}
+		e := &Extractor{format: format.PDF, reader: &reader.Reader{}, readerOpened: true, ownsReader: false, options: defaultOptions()} // the state tabula.FromReader(r) builds: derivations share the caller-supplied reader
 		switch spelling {
 		case 0:
 			e = e.Pages(p, q)
